@@ -129,7 +129,7 @@ func vfhC05Respell() {
 	case 0:
 		txt = "multipoint((" + string(x) + " " + string(y) + "),(" + string(u) + " " + string(v) + "))"
 	case 1:
-		txt = "MultiPoint ( " + string(x) + "\t" + string(y) + " ,\n" + string(u) + "  " + string(v) + " ) "
+		txt = "MultiPoint ( " + string(x) + "\t" + string(y) + " ,\r\n" + string(u) + " \r " + string(v) + " )\r\n"
 	case 2:
 		txt = "MULTIPOINT(" + string(x) + " " + string(y) + "," + string(u) + " " + string(v) + ")"
 	default:
